@@ -342,6 +342,24 @@ def run(ctx, rep):
                     f_ac.add(f"({ql(par)}, {ql(trial)}, {ql(old)}, {ql(new)}, {ql(post)})", dict(where, which=nm))
         if rec:
             rep.sample(dict(cfg=cfg, first_record=C.jsonable({k: v for k, v in rec[0].items() if k not in ("draws",)})))
+    # ---- direct calls of SHADE._append_archive at every size combination (the runs above reach "every trial improved while the archive
+    #      is non-empty" only by luck): never more than pop_size rows, only former archive members and replaced parents, everything kept
+    #      while it fits
+    from thefittest.utils.random import numba_seed
+    for pop in (3, 5, 6):
+        opt = O.SHADE(lambda X: np.asarray(X, dtype=np.float64).sum(axis=1), iters=2, pop_size=pop, left_border=-1.0, right_border=1.0, num_variables=2)
+        for na in (0, 1, pop - 1, pop):
+            for nw in (0, 1, pop - 1, pop):
+                archive = np.array([[100.0 + i, -(100.0 + i)] for i in range(na)], dtype=np.float64).reshape(na, 2)
+                worse = np.array([[200.0 + i, -(200.0 + i)] for i in range(nw)], dtype=np.float64).reshape(nw, 2)
+                numba_seed(ctx.rng.randrange(1 << 30))
+                out = np.asarray(opt._append_archive(archive.copy(), worse.copy()))
+                rows = {tuple(r) for r in out.tolist()}
+                allowed = {tuple(r) for r in archive.tolist()} | {tuple(r) for r in worse.tolist()}
+                rep.count("archive-direct", (pop, na, nw))
+                if len(out) > pop or not rows <= allowed or len(rows) != len(out) or (na + nw <= pop and rows != allowed):
+                    rep.problem("archive", "SHADE._append_archive: the archive exceeds pop_size / holds a foreign or duplicated row / dropped a row although everything fits",
+                                dict(pop_size=pop, archive_rows=na, replaced_parents=nw, out_rows=len(out)), "archive", True, len(out), min(pop, na + nw), "C15_archive")
     for fc in (f_up, fg_sh, fg_sg, fm_sh, fm_sg, f_ar, f_jf, f_jc, f_ac):
         bad, errors = fc.run()
         rep.hist("coq_cases", fc.name + ":" + str(len(fc)))
